@@ -5,31 +5,47 @@ C02 — coverage structure of a manifest store.
 
 Two layers.
 
-**Layer A (abstract coverage).** What `Store::verify_store` / `Claim::verify_internal` /
-`Store::ingredient_checks` compare (sdk/src/store.rs, sdk/src/claim.rs):
+**Layer A (what the validator compares).** A branch-by-branch model of the comparisons made by
+`Store::verify_store` → `Claim::verify_claim` / `Claim::verify_internal` (assertion loop,
+sdk/src/claim.rs) and `Store::ingredient_checks` (sdk/src/store.rs), with the validation log in
+`ErrorBehavior::ContinueWhenPossible` (what `Reader` uses): `failure(..)?` logs and continues,
+only the hard `return Err(..)` / `ok_or_else(..)?` sites stop the walk.
 * the COSE signature is verified over the *original claim bytes* (idealisation **Sig-free**: a
   signature value is a free constructor `(key, signed bytes)`; it verifies only for exactly the
   bytes it was made over),
-* every hashed URI of the claim (`created_assertions`/`gathered_assertions`/`assertions`) is
-  compared with the hash of the *re-built* assertion box payload
-  (`Claim::calc_assertion_box_hash`: label, content box, salt — idealisation **H-free**: a digest
-  is its preimage),
-* every assertion box present in the assertion store must be declared by the claim
-  (`assertion.undeclared`),
-* every ingredient assertion with an `activeManifest`/`c2pa_manifest` hashed URI is compared with
-  the hash of the re-built manifest box payload of the referenced manifest
-  (`Store::calc_manifest_box_hash`) and, when present, `claimSignature` with the re-built
-  signature box (`Claim::calc_sig_box_hash`).
-The CBOR decoding of the claim (which hashed URIs it declares) and of ingredient assertions
-(which manifests they reference) are parameters `decl` / `refs`: functions of the covered bytes.
+* every hashed URI of the claim is split by the code into (label, instance)
+  (`Claim::assertion_label_from_link`) and a target (relative / absolute with a manifest label /
+  absolute and malformed); a URI outside this manifest is `assertion.outsideManifest`; one entry
+  with the same (label, instance) is removed from the tracking copy of the assertion store
+  (`ca_tracking_list`, `position` + `swap_remove`); the comparison is skipped exactly when a
+  redaction of the store names this manifest *and* this (label, instance); otherwise the first box
+  with that (label, instance) (`get_claim_assertion`) must exist (`assertion.missing`) and its
+  re-built payload hash must equal the URI's hash (`assertion.hashedURI.mismatch`; idealisation
+  **H-free**: a digest is its preimage),
+* whatever is left in the tracking list is `assertion.undeclared`, and the function returns `Err`
+  (the walk stops),
+* for every ingredient assertion box (not zeroed by a redaction) with an `activeManifest` /
+  `c2pa_manifest` hashed URI: the referenced manifest must be in the store
+  (`ingredient.manifest.missing`); when no redaction *mentions* its label (substring test) the
+  URI hash must equal the hash of the re-built manifest box, or — legacy — of the claim bytes
+  (`ingredient.manifest.mismatch`); when a redaction mentions it and the referenced claim is v2+,
+  `claimSignature` must be present (`ingredient.claimSignature.missing`, stops the walk) and equal
+  the hash of the re-built signature box (`ingredient.claimSignature.mismatch`); when a redaction
+  mentions it and the referenced claim is v1 **nothing is compared**; then the referenced claim is
+  verified like the active one, and its own ingredients are walked once per store (`visited`),
+  at most `MAX_INGREDIENT_DEPTH` deep.
+The CBOR decoders (hashed URIs and redactions of a claim, ingredient fields of an assertion) are
+the parameters `Dec`: functions of the covered bytes. The other rules of `verify_internal`
+(update manifests, actions, metadata, …) belong to C19–C21 and are not repeated here.
 
 **Layer B (byte classes).** On the C18 JUMBF tree of the store bytes every byte position gets a
 class (`Cls`). The *free* classes are the ones no signature or hash covers, because hashing runs
 over re-built boxes: box length fields, description-box toggles, the label of the outermost
-store box, and the `pad` entries of the unprotected COSE header of the active manifest. A change
-of a byte of any other class must be detected; a change of a free byte is either detected (the
-parser may reject it) or leaves the report unchanged. The correspondence run compares this
-prediction with what the reader does for every byte of real stores.
+store box, the version suffix of a claim box label, and the `pad` entries of the unprotected COSE
+header inside the signature box of the active manifest. A change of a byte of any other class
+must be detected; a change of a free byte is either detected (the parser may reject it) or leaves
+the report unchanged. The correspondence run compares this prediction with what the reader does
+for every byte of real stores.
 -/
 namespace C2pa.C02
 open C2pa.C18
@@ -42,92 +58,252 @@ structure Sig where
   signed : Bytes
   deriving DecidableEq, Repr
 
-structure HashedUri where
+/-- (label, instance) of an assertion: `Claim::assertion_label_from_link` of a URI, or
+`label_raw()` / `instance()` of a box of the assertion store (`label__<n>`) -/
+structure Key where
   label : String
+  inst : Nat
+  deriving DecidableEq, Repr
+
+/-- where a hashed URI of the claim points -/
+inductive Target
+  | relative                 -- `self#jumbf=c2pa.assertions/…`
+  | malformed                -- absolute, `manifest_label_from_uri` gives `None`
+  | manifest (l : String)    -- absolute, `/c2pa/<l>/c2pa.assertions/…`
+  deriving DecidableEq, Repr
+
+structure HashedUri where
+  target : Target
+  key : Key
   pre : Bytes          -- H-free: the preimage of the digest in the hashed URI
   deriving DecidableEq, Repr
 
 structure AssertionBox where
-  label : String
+  key : Key
   body : Bytes         -- the re-built assertion box payload (`calc_assertion_box_hash` input)
+  deriving DecidableEq, Repr
+
+/-- a redacted-assertion URI of some claim of the store, as the code looks at it -/
+structure Redaction where
+  raw : String         -- the URI text (`r.contains(&label)` in `ingredient_checks`)
+  manifest : String    -- `manifest_label_from_uri(r).unwrap_or_default()`
+  key : Key            -- `Claim::assertion_label_from_link(r)`
+  deriving DecidableEq, Repr
+
+/-- the re-built manifest box payload (`Store::calc_manifest_box_hash` input): claim box,
+signature box, assertion store and everything else inside the manifest box (databoxes, VC store,
+unknown boxes) -/
+structure Body where
+  claim : Bytes
+  sigBox : Bytes
+  assertions : List AssertionBox
+  extra : Bytes
+  deriving DecidableEq, Repr
+
+/-- H-free preimage of the digest in an ingredient's `activeManifest` / `c2pa_manifest` URI: a
+manifest box (1.3+) or claim bytes (legacy) -/
+inductive Pre
+  | box (b : Body)
+  | claim (c : Bytes)
   deriving DecidableEq, Repr
 
 /-- what an ingredient assertion says about the manifest it points to -/
 structure IngRef where
-  target : String
-  manifestPre : Bytes
-  sigPre : Option Bytes
+  zero : Bool          -- the assertion data is all zero (redacted ingredient): skipped
+  target : String      -- `Store::manifest_label_from_path(c2pa_manifest.url())`
+  manifestPre : Pre
+  sigPre : Option Bytes  -- preimage of the `claimSignature` digest
   deriving DecidableEq, Repr
 
 structure Manifest where
   label : String
+  version : Nat        -- claim version (from the claim box label)
   claim : Bytes
-  sig : Sig
-  sigBox : Bytes       -- re-built signature box payload
+  sigBox : Bytes       -- re-built signature box payload (`Claim::calc_sig_box_hash` input)
   assertions : List AssertionBox
-  body : Bytes         -- re-built manifest box payload (`calc_manifest_box_hash` input)
+  extra : Bytes
   deriving DecidableEq, Repr
+
+def Manifest.body (m : Manifest) : Body := ⟨m.claim, m.sigBox, m.assertions, m.extra⟩
 
 inductive Failure
   | sigMismatch (m : String)
-  | assertionMissing (m l : String)
-  | assertionMismatch (m l : String)
-  | assertionUndeclared (m l : String)
-  | ingredientMissing (m t : String)
-  | ingredientMismatch (m t : String)
-  | ingredientSigMismatch (m t : String)
+  | assertionOutside (m : String) (k : Key)
+  | assertionMissing (m : String) (k : Key)
+  | assertionMismatch (m : String) (k : Key)
+  | assertionUndeclared (m : String) (k : Key)
+  | ingredientMissing (t : String)
+  | ingredientMismatch (t : String)
+  | ingredientSigMissing (t : String)
+  | ingredientSigMismatch (t : String)
+  | depthExceeded
   deriving DecidableEq, Repr
 
 /-- the decoders: functions of covered bytes -/
 structure Dec where
-  decl : Bytes → List HashedUri
-  refs : Bytes → List IngRef
+  sigOf : Bytes → Sig                -- the signature value inside a signature box (COSE_Sign1)
+  decl : Bytes → List HashedUri      -- `claim.assertions()`
+  reds : Bytes → List Redaction      -- `claim.redactions()`
+  refs : Bytes → List IngRef         -- ingredient assertion with a `c2pa_manifest`: one entry
 
-def findAssertion (l : String) : List AssertionBox → Option AssertionBox
+/-- `get_claim_assertion`: first box with that label and instance -/
+def findBox (k : Key) : List AssertionBox → Option AssertionBox
   | [] => none
-  | a :: as => if a.label = l then some a else findAssertion l as
+  | a :: as => if a.key = k then some a else findBox k as
+
+/-- `ca_tracking_list.iter().position(..)` + `swap_remove`: one entry with that label and
+instance leaves the tracking list (the first). `swap_remove` moves the last entry into the hole;
+here the order is kept — only the order of the `assertion.undeclared` entries depends on it and
+replies are compared as sorted lists. -/
+def eraseKey (k : Key) : List AssertionBox → List AssertionBox
+  | [] => []
+  | a :: as => if a.key = k then as else a :: eraseKey k as
 
 def findManifest (l : String) : List Manifest → Option Manifest
   | [] => none
   | m :: ms => if m.label = l then some m else findManifest l ms
 
+/-- the redaction skip of the assertion loop: the redaction names this manifest and exactly this
+label *and* instance -/
+def redactedBy (reds : List Redaction) (ml : String) (k : Key) : Bool :=
+  reds.any fun r => decide (r.manifest = ml) && decide (r.key = k)
+
 /-- `verify_internal`: signature over the claim bytes (the key is the one of the certificate in
 the signature box; trust is C05) -/
-def checkSig (m : Manifest) : List Failure :=
-  if m.sig.signed = m.claim then [] else [.sigMismatch m.label]
+def checkSig (dec : Dec) (m : Manifest) : List Failure :=
+  if (dec.sigOf m.sigBox).signed = m.claim then [] else [.sigMismatch m.label]
 
-def checkDeclared (m : Manifest) : List HashedUri → List Failure
-  | [] => []
-  | hu :: rest =>
-    (match findAssertion hu.label m.assertions with
-     | none => [.assertionMissing m.label hu.label]
-     | some a => if a.body = hu.pre then [] else [.assertionMismatch m.label hu.label])
-    ++ checkDeclared m rest
+/-- one round of the assertion loop, without the tracking list -/
+def uriFailures (reds : List Redaction) (m : Manifest) (hu : HashedUri) : List Failure :=
+  match hu.target with
+  | .malformed => [.assertionMismatch m.label hu.key]
+  | t =>
+    (match t with
+     | .manifest l => if l = m.label then [] else [.assertionOutside m.label hu.key]
+     | _ => [])
+    ++ (if redactedBy reds m.label hu.key then []
+        else match findBox hu.key m.assertions with
+          | none => [.assertionMissing m.label hu.key]
+          | some a => if a.body = hu.pre then [] else [.assertionMismatch m.label hu.key])
 
-def checkUndeclared (m : Manifest) (decl : List HashedUri) : List AssertionBox → List Failure
-  | [] => []
-  | a :: rest =>
-    (if decl.any (fun hu => hu.label == a.label) then [] else [.assertionUndeclared m.label a.label])
-    ++ checkUndeclared m decl rest
+/-- the tracking list after the loop (a malformed URI `continue`s before the removal) -/
+def track : List HashedUri → List AssertionBox → List AssertionBox
+  | [], t => t
+  | hu :: us, t => track us (if hu.target = .malformed then t else eraseKey hu.key t)
 
-def checkRefs (store : List Manifest) (m : Manifest) : List IngRef → List Failure
-  | [] => []
-  | r :: rest =>
-    (match findManifest r.target store with
-     | none => [.ingredientMissing m.label r.target]
-     | some t =>
-       (if t.body = r.manifestPre then [] else [.ingredientMismatch m.label r.target]) ++
-       (match r.sigPre with
-        | some s => if t.sigBox = s then [] else [.ingredientSigMismatch m.label r.target]
-        | none => []))
-    ++ checkRefs store m rest
+/-- log and "the function returned `Err` unconditionally" -/
+structure Out where
+  log : List Failure
+  stop : Bool
+  deriving DecidableEq, Repr
 
-def allRefs (dec : Dec) (m : Manifest) : List IngRef := m.assertions.flatMap fun a => dec.refs a.body
+/-- `verify_claim` restricted to the comparisons listed in the header -/
+def verifyClaim (dec : Dec) (reds : List Redaction) (m : Manifest) : Out :=
+  let left := track (dec.decl m.claim) m.assertions
+  ⟨checkSig dec m ++ (dec.decl m.claim).flatMap (uriFailures reds m)
+      ++ left.map (fun a => .assertionUndeclared m.label a.key),
+    !left.isEmpty⟩
 
-/-- every check on one manifest of the store -/
-def verifyManifest (dec : Dec) (store : List Manifest) (m : Manifest) : List Failure :=
-  checkSig m ++ checkDeclared m (dec.decl m.claim) ++ checkUndeclared m (dec.decl m.claim) m.assertions
-    ++ checkRefs store m (allRefs dec m)
+/-- `needle` occurs in `hay` (`str::contains`) -/
+def infixOf (needle : List Char) : List Char → Bool
+  | [] => needle.isEmpty
+  | c :: cs => needle.isPrefixOf (c :: cs) || infixOf needle cs
+
+/-- `svi.redactions.iter().any(|r| r.contains(&label))` -/
+def hasRed (reds : List Redaction) (l : String) : Bool :=
+  reds.any fun r => infixOf l.toList r.raw.toList
+
+/-- the hash comparisons of `ingredient_checks` for one reference `r` to the manifest `t` found
+under `r.target` -/
+def refFailures (reds : List Redaction) (r : IngRef) (t : Manifest) : Out :=
+  if !hasRed reds r.target then
+    ⟨if r.manifestPre = .box t.body ∨ r.manifestPre = .claim t.claim then []
+       else [.ingredientMismatch r.target], false⟩
+  else if t.version > 1 then
+    match r.sigPre with
+    | none => ⟨[.ingredientSigMissing r.target], true⟩
+    | some s => ⟨if t.sigBox = s then [] else [.ingredientSigMismatch r.target], false⟩
+  else ⟨[], false⟩
+
+def allRefs (dec : Dec) (m : Manifest) : List IngRef :=
+  (m.assertions.flatMap fun a => dec.refs a.body).filter fun r => !r.zero
+
+/-- `MAX_INGREDIENT_DEPTH` (sdk/src/store.rs) -/
+def maxDepth : Nat := 200
+
+/-- state of the walk: log, stop flag, visited labels -/
+structure Walk where
+  log : List Failure
+  stop : Bool
+  visited : List String
+  deriving Repr
+
+/-- a `for` loop whose body may make the function return (`stop`) -/
+def walkList (step : IngRef → Walk → Walk) : List IngRef → Walk → Walk
+  | [], w => w
+  | r :: rest, w => if w.stop then w else walkList step rest (step r w)
+
+/-- one ingredient assertion of the loop of `Store::ingredient_checks`; `recurse` is the
+recursive call for the ingredients of the referenced claim -/
+def walkStep (dec : Dec) (store : List Manifest) (reds : List Redaction)
+    (recurse : Manifest → Walk → Walk) (r : IngRef) (w : Walk) : Walk :=
+  match findManifest r.target store with
+  | none => { w with log := w.log ++ [.ingredientMissing r.target] }
+  | some t =>
+    let rf := refFailures reds r t
+    if rf.stop then { w with log := w.log ++ rf.log, stop := true }
+    else
+      let vc := verifyClaim dec reds t
+      let w1 : Walk := { w with log := w.log ++ rf.log ++ vc.log, stop := vc.stop }
+      if w1.stop then w1
+      else if w1.visited.contains t.label then w1
+      else recurse t { w1 with visited := t.label :: w1.visited }
+
+/-- `Store::ingredient_checks` for the ingredient references `refs` of the claim walked at
+recursion depth `depth`; `fuel` only makes the recursion structural (it starts at `maxDepth + 1`;
+the test `depth ≥ MAX_INGREDIENT_DEPTH` is made where the code makes it: on entry) -/
+def walkRefs (dec : Dec) (store : List Manifest) (reds : List Redaction) :
+    Nat → Nat → List IngRef → Walk → Walk
+  | 0, _, _, w => { w with log := w.log ++ [.depthExceeded], stop := true }
+  | fuel + 1, depth, refs, w =>
+    if depth ≥ maxDepth then { w with log := w.log ++ [.depthExceeded], stop := true }
+    else walkList (walkStep dec store reds
+      (fun t w' => walkRefs dec store reds fuel (depth + 1) (allRefs dec t) w')) refs w
+
+def reachList (step : IngRef → List String → List String) : List IngRef → List String → List String
+  | [], seen => seen
+  | r :: rest, seen => reachList step rest (step r seen)
+
+/-- labels of the manifests reachable from a claim through ingredient references
+(`get_claim_referenced_manifests`, first visit only), with the same depth bound -/
+def reach (dec : Dec) (store : List Manifest) : Nat → List IngRef → List String → List String
+  | 0, _, seen => seen
+  | fuel + 1, refs, seen =>
+    reachList (fun r seen' =>
+      match findManifest r.target store with
+      | none => seen'
+      | some t =>
+        if seen'.contains t.label then seen'
+        else reach dec store fuel (t.assertions.flatMap fun a => dec.refs a.body) (t.label :: seen')) refs seen
+
+/-- `svi.redactions`: the redactions of every claim reachable from the active one -/
+def storeReds (dec : Dec) (store : List Manifest) (root : Manifest) : List Redaction :=
+  let labels := reach dec store (maxDepth + 1) (root.assertions.flatMap fun a => dec.refs a.body) [root.label]
+  labels.reverse.flatMap fun l =>
+    match findManifest l store with
+    | some t => dec.reds t.claim
+    | none => []
+
+/-- `Store::verify_store` without asset data: the active claim, then its ingredients -/
+def verifyStoreWith (dec : Dec) (store : List Manifest) (reds : List Redaction) (root : Manifest) : Out :=
+  let vc := verifyClaim dec reds root
+  if vc.stop then vc
+  else
+    let w := walkRefs dec store reds (maxDepth + 1) 0 (allRefs dec root) ⟨vc.log, false, [root.label]⟩
+    ⟨w.log, w.stop⟩
+
+def verifyStore (dec : Dec) (store : List Manifest) (root : Manifest) : Out :=
+  verifyStoreWith dec store (storeReds dec store root) root
 
 /-! ### layer B: byte classes on the JUMBF tree -/
 
@@ -145,14 +321,26 @@ inductive Cls
   | labelNul    -- NUL terminating a label
   | descExtra   -- box id / private signature field of a description box
   | salt        -- c2sh salt box inside a description box
+  | dataUuid    -- 16-byte type UUID of the description box of a child of a `c2pa.databoxes` or
+                --   `c2pa.credentials` store: these children are looked up by label and their
+                --   hash runs over the re-built box with the fixed UUID
+  | credLabel   -- label of a child of a `c2pa.credentials` store: the re-built box is labelled with
+                --   the credential's own `id`
+  | dataContent -- payload of a content box of a databox (a child of a child of `c2pa.databoxes`)
+  | cborStrHead -- CBOR head of a byte- or text-string item inside a databox: databoxes are hashed
+                --   after being decoded and re-encoded, and the decoder takes a text string for a
+                --   byte string and vice versa (major type 2 <-> 3, same length, UTF-8 content)
+  | bfdbToggles -- toggles byte of an embedded-file description box (`bfdb`): re-generated
   | content     -- payload of a content box (claim CBOR, assertion data, signature CBOR, …)
   | sigPad      -- `pad`/`pad2` entries (key text, CBOR head of the value, zero bytes) of the
-                --   unprotected COSE header of the active manifest's signature
+                --   unprotected COSE header of the active manifest's signature, and the `nil`
+                --   detached-payload byte of that COSE_Sign1
   deriving DecidableEq, Repr
 
 /-- classes that no signature or hash covers -/
 def Cls.free : Cls → Bool
-  | .lbox | .toggles | .rootLabel | .claimVersion | .sigPad => true
+  | .lbox | .toggles | .rootLabel | .claimVersion | .sigPad | .dataUuid | .credLabel | .bfdbToggles
+  | .cborStrHead => true
   | _ => false
 
 structure Seg where
@@ -164,9 +352,29 @@ structure Seg where
 /-- `c2pa.claim` -/
 def claimPrefix : Bytes := [99, 50, 112, 97, 46, 99, 108, 97, 105, 109]
 
-def labelSegs (root : Bool) (off : Nat) (label : Bytes) : List Seg :=
+/-- `c2pa.signature` -/
+def signatureLabel : Bytes := [99, 50, 112, 97, 46, 115, 105, 103, 110, 97, 116, 117, 114, 101]
+
+/-- `c2pa.databoxes` -/
+def databoxesLabel : Bytes := [99, 50, 112, 97, 46, 100, 97, 116, 97, 98, 111, 120, 101, 115]
+
+/-- `c2pa.credentials` -/
+def credentialsLabel : Bytes := [99, 50, 112, 97, 46, 99, 114, 101, 100, 101, 110, 116, 105, 97, 108, 115]
+
+/-- where a box sits: the outermost store box, a direct child of a databox / credential store,
+anything else -/
+inductive Ctx | root | dataChild | dataInner | credChild | other
+  deriving DecidableEq, Repr
+
+/-- context of the children of a super box that sits in context `parent` and has label `label` -/
+def childCtx (parent : Ctx) (label : Bytes) : Ctx :=
+  if parent = .dataChild then .dataInner
+  else if label = databoxesLabel then .dataChild else if label = credentialsLabel then .credChild else .other
+
+def labelSegs (root cred : Bool) (off : Nat) (label : Bytes) : List Seg :=
   if strNonEmpty label then
     (if root then [⟨off, label.length, .rootLabel⟩]
+     else if cred then [⟨off, label.length, .credLabel⟩]
      else if claimPrefix.isPrefixOf label then
        [⟨off, claimPrefix.length, .label⟩, ⟨off + claimPrefix.length, label.length - claimPrefix.length, .claimVersion⟩]
      else [⟨off, label.length, .label⟩])
@@ -176,10 +384,12 @@ def labelSegs (root : Bool) (off : Nat) (label : Bytes) : List Seg :=
 def labelLen (label : Bytes) : Nat := if strNonEmpty label then label.length + 1 else 0
 
 /-- segments of a description box written at `off` (layout of `descPayload`) -/
-def descSegs (root : Bool) (off : Nat) (d : Desc) : List Seg :=
+def descSegs (ctx : Ctx) (off : Nat) (d : Desc) : List Seg :=
   let p := off + 8
-  [⟨off, 8, .descHdr⟩, ⟨p, d.uuid.length, .descUuid⟩, ⟨p + d.uuid.length, 1, .toggles⟩]
-    ++ labelSegs root (p + d.uuid.length + 1) d.label
+  [⟨off, 8, .descHdr⟩,
+    ⟨p, d.uuid.length, if ctx = .dataChild ∨ ctx = .credChild then .dataUuid else .descUuid⟩,
+    ⟨p + d.uuid.length, 1, .toggles⟩]
+    ++ labelSegs (decide (ctx = .root)) (decide (ctx = .credChild)) (p + d.uuid.length + 1) d.label
     ++ [⟨p + d.uuid.length + 1 + labelLen d.label,
           (match d.boxId with | some _ => 4 | none => 0) + (optBytes d.sig).length, .descExtra⟩,
         ⟨p + d.uuid.length + 1 + labelLen d.label
@@ -188,16 +398,18 @@ def descSegs (root : Bool) (off : Nat) (d : Desc) : List Seg :=
 
 mutual
 /-- segments of a box serialised at `off` (layout of `Box.ser`) -/
-def boxSegs (root : Bool) (off : Nat) : Box → List Seg
+def boxSegs (ctx : Ctx) (off : Nat) : Box → List Seg
   | .super d cs =>
-    [⟨off, 4, .lbox⟩, ⟨off + 4, 4, .tbox⟩] ++ descSegs root (off + 8) d
-      ++ listSegs (off + 8 + (8 + (descPayload d).length)) cs
-  | .leaf _ data => [⟨off, 4, .lbox⟩, ⟨off + 4, 4, .tbox⟩, ⟨off + 8, data.length, .content⟩]
+    [⟨off, 4, .lbox⟩, ⟨off + 4, 4, .tbox⟩] ++ descSegs ctx (off + 8) d
+      ++ listSegs (childCtx ctx d.label) (off + 8 + (8 + (descPayload d).length)) cs
+  | .leaf _ data => [⟨off, 4, .lbox⟩, ⟨off + 4, 4, .tbox⟩,
+      ⟨off + 8, data.length, if ctx = .dataInner then .dataContent else .content⟩]
   | .uuid _ data => [⟨off, 4, .lbox⟩, ⟨off + 4, 4, .tbox⟩, ⟨off + 8, 16 + data.length, .content⟩]
-  | .bfdb t m _ => [⟨off, 4, .lbox⟩, ⟨off + 4, 4, .tbox⟩, ⟨off + 8, (bfdbPayload t m).length, .content⟩]
-def listSegs (off : Nat) : List Box → List Seg
+  | .bfdb t m _ => [⟨off, 4, .lbox⟩, ⟨off + 4, 4, .tbox⟩, ⟨off + 8, 1, .bfdbToggles⟩,
+      ⟨off + 9, (bfdbPayload t m).length - 1, .content⟩]
+def listSegs (ctx : Ctx) (off : Nat) : List Box → List Seg
   | [] => []
-  | b :: bs => boxSegs false off b ++ listSegs (off + b.size) bs
+  | b :: bs => boxSegs ctx off b ++ listSegs ctx (off + b.size) bs
 end
 
 /-- offset and size of the last child super box of the store box (the active manifest) -/
@@ -206,8 +418,28 @@ def lastChildSpan (off : Nat) : List Box → Option (Nat × Nat)
   | [b] => some (off, b.size)
   | b :: bs => lastChildSpan (off + b.size) bs
 
+def lastChild : List Box → Option Box
+  | [] => none
+  | [b] => some b
+  | _ :: bs => lastChild bs
+
 def activeSpan : Box → Option (Nat × Nat)
   | .super d cs => lastChildSpan (8 + (8 + (descPayload d).length)) cs
+  | _ => none
+
+/-- offset and size of the first child super box labelled `l` among boxes laid out from `off` -/
+def labelledSpan (l : Bytes) (off : Nat) : List Box → Option (Nat × Nat)
+  | [] => none
+  | .super d cs :: bs =>
+    if d.label = l then some (off, (Box.super d cs).size) else labelledSpan l (off + (Box.super d cs).size) bs
+  | b :: bs => labelledSpan l (off + b.size) bs
+
+/-- offset and size of the `c2pa.signature` box of the active manifest -/
+def sigSpan : Box → Option (Nat × Nat)
+  | .super d cs =>
+    match lastChildSpan (8 + (8 + (descPayload d).length)) cs, lastChild cs with
+    | some (o, _), some (.super dm parts) => labelledSpan signatureLabel (o + 8 + (8 + (descPayload dm).length)) parts
+    | _, _ => none
   | _ => none
 
 /-- class of position `p` given the segments -/
@@ -218,23 +450,73 @@ def clsAt (segs : List Seg) (p : Nat) : Option Cls :=
 
 def inRanges (rs : List (Nat × Nat)) (p : Nat) : Bool := rs.any fun r => r.1 ≤ p && p < r.1 + r.2
 
-/-- final class: a `content` byte inside a pad range of the active manifest is `sigPad` -/
-def classifyWith (segs : List Seg) (active : Option (Nat × Nat)) (pads : List (Nat × Nat)) (p : Nat) :
-    Option Cls :=
+def inSpan (sp : Option (Nat × Nat)) (p : Nat) : Bool :=
+  match sp with
+  | some (o, n) => decide (o ≤ p) && decide (p < o + n)
+  | none => false
+
+/-- final class: a `content` byte inside a pad range *and* inside the span `sp` (the signature
+box of the active manifest) is `sigPad` -/
+def classifyWith (segs : List Seg) (sp : Option (Nat × Nat)) (pads : List (Nat × Nat))
+    (heads : List Nat) (p : Nat) : Option Cls :=
   match clsAt segs p with
-  | some .content =>
-    let inActive := match active with
-      | some (o, n) => decide (o ≤ p) && decide (p < o + n)
-      | none => false
-    if inActive && inRanges pads p then some .sigPad else some .content
+  | some .content => if inSpan sp p && inRanges pads p then some .sigPad else some .content
+  | some .dataContent => if heads.contains p then some .cborStrHead else some .dataContent
   | other => other
 
-def classify (t : Box) (pads : List (Nat × Nat)) (p : Nat) : Option Cls :=
-  classifyWith (boxSegs true 0 t) (activeSpan t) pads p
+/-- `heads`: positions handed in by the harness as CBOR heads of byte-string items of databoxes;
+they count only inside databox content (`dataContent`) -/
+def classify (t : Box) (pads : List (Nat × Nat)) (heads : List Nat) (p : Nat) : Option Cls :=
+  classifyWith (boxSegs .root 0 t) (sigSpan t) pads heads p
+
+/-- a byte that is the head of a CBOR byte or text string (major type 2 or 3) -/
+def strHeadOk (store : Bytes) (p : Nat) : Bool :=
+  match slice store p 1 with
+  | [b] => b.toNat / 32 == 2 || b.toNat / 32 == 3
+  | _ => false
 
 /-- is observation `o` (`d` detected, `u` accepted with unchanged report, `-` position not
 exercised in this run) allowed for the class? -/
 def allowed (c : Cls) (o : Char) : Bool := o == '-' || o == 'd' || (o == 'u' && c.free)
+
+/-! #### shape of the pad ranges handed in by the harness
+
+The ranges come in pairs: the text of a map key `pad` / `pad2` (preceded by its CBOR head
+`0x63` / `0x64`) and, directly after it, a byte-string value (head `0x40+n`, `0x58 n` or
+`0x59 hi lo`) whose `n` bytes are all zero. Anything else is rejected (`bad-pads`). -/
+
+def padKeyOk (store : Bytes) (r : Nat × Nat) : Bool :=
+  r.1 ≥ 1 &&
+  ((r.2 == 3 && slice store (r.1 - 1) 4 == [0x63, 112, 97, 100]) ||
+   (r.2 == 4 && slice store (r.1 - 1) 5 == [0x64, 112, 97, 100, 50]))
+
+def padValOk (store : Bytes) (r : Nat × Nat) : Bool :=
+  match slice store r.1 r.2 with
+  | b :: rest =>
+    if 0x40 ≤ b.toNat ∧ b.toNat ≤ 0x57 then rest.length == b.toNat - 0x40 && rest.all (· == 0)
+    else if b = 0x58 then
+      match rest with
+      | n :: z => z.length == n.toNat && z.all (· == 0)
+      | [] => false
+    else if b = 0x59 then
+      match rest with
+      | hi :: lo :: z => z.length == hi.toNat * 256 + lo.toNat && z.all (· == 0)
+      | _ => false
+    else false
+  | [] => false
+
+def padPairsOk (store : Bytes) : List (Nat × Nat) → Bool
+  | [] => true
+  | k :: v :: rest => padKeyOk store k && v.1 == k.1 + k.2 && padValOk store v && padPairsOk store rest
+  | [_] => false
+
+/-- the detached-payload `nil` (0xf6) of a COSE_Sign1, followed by the byte-string head of the
+signature: the decoder reads `undefined` (0xf7) as `nil` too, and the payload field is not part of
+what is signed. Handed in by the harness like the pad ranges and treated as one more pad byte. -/
+def nilOk (store : Bytes) (p : Nat) : Bool :=
+  match slice store p 2 with
+  | [a, b] => a == 0xf6 && b.toNat / 32 == 2
+  | _ => false
 
 /-! ### line protocol -/
 
@@ -259,50 +541,176 @@ def Cls.str : Cls → String
   | .lbox => "lbox" | .tbox => "tbox" | .descHdr => "descHdr" | .descUuid => "descUuid"
   | .toggles => "toggles" | .rootLabel => "rootLabel" | .label => "label" | .labelNul => "labelNul"
   | .descExtra => "descExtra" | .salt => "salt" | .content => "content" | .sigPad => "sigPad"
-  | .claimVersion => "claimVersion"
+  | .claimVersion => "claimVersion" | .dataUuid => "dataUuid" | .bfdbToggles => "bfdbToggles"
+  | .credLabel => "credLabel" | .dataContent => "dataContent" | .cborStrHead => "cborStrHead"
 
 /-- first violating position of one observation run -/
-def checkRun (segs : List Seg) (active : Option (Nat × Nat)) (pads : List (Nat × Nat)) (a b : Nat)
-    (o : Char) : Option String :=
+def checkRun (segs : List Seg) (sp : Option (Nat × Nat)) (pads : List (Nat × Nat)) (heads : List Nat)
+    (a b : Nat) (o : Char) : Option String :=
   (List.range' a (b + 1 - a)).findSome? fun p =>
-    match classifyWith segs active pads p with
+    match classifyWith segs sp pads heads p with
     | none => some s!"{p}:unclassified:{o}"
     | some c => if allowed c o then none else some s!"{p}:{c.str}:{o}"
 
-def coverReply (store : Bytes) (pads : List (Nat × Nat)) (obs : List (Nat × Nat × Char)) : String :=
+def coverReply (store : Bytes) (pads0 : List (Nat × Nat)) (nils : List Nat) (heads : List Nat)
+    (obs : List (Nat × Nat × Char)) : String :=
+  let pads := pads0 ++ nils.map (fun p => (p, 1))
   match parse store with
   | .ok (t, e) =>
     if e ≠ store.length then "trailing-bytes"
     else if t.ser ≠ store then "not-canonical"
+    else if !padPairsOk store pads0 then "bad-pads"
+    else if !nils.all (nilOk store) then "bad-nils"
+    else if !heads.all (strHeadOk store) then "bad-heads"
     else
-      let segs := (boxSegs true 0 t).filter (fun s => s.len != 0)
-      let active := activeSpan t
-      match obs.filterMap (fun (a, b, o) => checkRun segs active pads a b o) with
+      let segs := (boxSegs .root 0 t).filter (fun s => s.len != 0)
+      let sp := sigSpan t
+      match obs.filterMap (fun (a, b, o) => checkRun segs sp pads heads a b o) with
       | [] => "ok"
       | v :: vs => s!"violations={vs.length + 1} first={v}"
   | .err e => "parse-error:" ++ e.str
   | .panic => "parse-panic"
   | .oof => "parse-oof"
 
+def Key.str (k : Key) : String := s!"{k.label}#{k.inst}"
+
 def failStr : Failure → String
   | .sigMismatch m => s!"sig:{m}"
-  | .assertionMissing m l => s!"missing:{m}/{l}"
-  | .assertionMismatch m l => s!"mismatch:{m}/{l}"
-  | .assertionUndeclared m l => s!"undeclared:{m}/{l}"
-  | .ingredientMissing m t => s!"ing-missing:{m}>{t}"
-  | .ingredientMismatch m t => s!"ing-mismatch:{m}>{t}"
-  | .ingredientSigMismatch m t => s!"ing-sig:{m}>{t}"
+  | .assertionOutside m k => s!"outside:{m}/{k.str}"
+  | .assertionMissing m k => s!"missing:{m}/{k.str}"
+  | .assertionMismatch m k => s!"mismatch:{m}/{k.str}"
+  | .assertionUndeclared _ k => s!"undeclared:{k.str}"
+  | .ingredientMissing t => s!"ing-missing:{t}"
+  | .ingredientMismatch t => s!"ing-mismatch:{t}"
+  | .ingredientSigMissing t => s!"ing-sig-missing:{t}"
+  | .ingredientSigMismatch t => s!"ing-sig:{t}"
+  | .depthExceeded => "depth"
+
+/-! #### `verify`: a real store described to layer A
+
+`store=<manifest>|<manifest>|…` (store order, active last), one manifest
+`L=<label>;V=<version>;D=<claim id>;S=<id of the claim bytes the signature value was made over>;SH=<signature box id>;BH=<manifest box id>;A=<uri>,…;T=<box>,…;R=<redaction>,…`
+with `<uri>` = `<r|x|m^<label>>~<label>~<inst>~<hash id>`, `<box>` =
+`<label>~<inst>~<hash id>~<-|<zero 0/1>^<target>^<manifest hash id>^<sig hash id|->>`,
+`<redaction>` = `<raw uri>~<manifest>~<label>~<inst>`; ids are hex. Under H-free an id stands for
+its preimage: the hash id in an ingredient reference is read as "the manifest box of the manifest
+whose `BH` it equals", else as claim bytes. -/
+
+structure PManifest where
+  m : Manifest
+  signed : Bytes
+  bh : Bytes
+  uris : List HashedUri
+  reds : List Redaction
+  boxRefs : List (Bytes × Bool × String × Bytes × Option Bytes)   -- per ingredient box: body id, zero, target, manifest id, sig id
+
+def parseKey (l i : String) : Option Key := i.toNat?.map fun n => ⟨l, n⟩
+
+def parseUri (s : String) : Option HashedUri :=
+  match s.splitOn "~" with
+  | [t, l, i, h] =>
+    let tgt : Option Target :=
+      if t == "r" then some .relative else if t == "x" then some .malformed
+      else match t.splitOn "^" with
+        | ["m", ml] => some (.manifest ml)
+        | _ => none
+    match tgt, parseKey l i, fromHex? h with
+    | some tg, some k, some hb => some ⟨tg, k, hb⟩
+    | _, _, _ => none
+  | _ => none
+
+def parseRed (s : String) : Option Redaction :=
+  match s.splitOn "~" with
+  | [raw, ml, l, i] => (parseKey l i).map fun k => ⟨raw, ml, k⟩
+  | _ => none
+
+def parseBox (s : String) : Option (AssertionBox × Option (Bool × String × Bytes × Option Bytes)) :=
+  match s.splitOn "~" with
+  | [l, i, h, r] =>
+    match parseKey l i, fromHex? h with
+    | some k, some hb =>
+      if r == "-" then some (⟨k, hb⟩, none)
+      else match r.splitOn "^" with
+        | [z, tgt, mh, sh] =>
+          match fromHex? mh, (if sh == "-" then some none else (fromHex? sh).map some) with
+          | some mhb, some shb => some (⟨k, hb⟩, some (z == "1", tgt, mhb, shb))
+          | _, _ => none
+        | _ => none
+    | _, _ => none
+  | _ => none
+
+def listField (s : String) : List String := splitList (if s == "-" then "" else s) ","
+
+def parseManifest (s : String) : Option PManifest :=
+  let fs := s.splitOn ";"
+  match fromHex? (field fs "D"), fromHex? (field fs "S"), fromHex? (field fs "SH"), fromHex? (field fs "BH"),
+      (field fs "V").toNat?, (listField (field fs "A")).mapM parseUri, (listField (field fs "T")).mapM parseBox,
+      (listField (field fs "R")).mapM parseRed with
+  | some d, some sg, some sh, some bh, some v, some uris, some boxes, some reds =>
+    some {
+      m := ⟨field fs "L", v, d, sh, boxes.map (·.1), bh⟩
+      signed := sg
+      bh := bh
+      uris := uris
+      reds := reds
+      boxRefs := boxes.filterMap fun (a, r) => r.map fun (z, t, mh, sh) => (a.body, z, t, mh, sh) }
+  | _, _, _, _, _, _, _, _ => none
+
+/-- the decoders of a described store: tables keyed by the ids -/
+def decOf (ps : List PManifest) : Dec where
+  sigOf := fun sb => match ps.find? (fun p => p.m.sigBox == sb) with
+    | some p => ⟨0, p.signed⟩
+    | none => ⟨0, []⟩
+  decl := fun c => match ps.find? (fun p => p.m.claim == c) with
+    | some p => p.uris
+    | none => []
+  reds := fun c => match ps.find? (fun p => p.m.claim == c) with
+    | some p => p.reds
+    | none => []
+  refs := fun b =>
+    match (ps.flatMap (·.boxRefs)).find? (fun r => r.1 == b) with
+    | some (_, z, t, mh, sh) =>
+      let pre := match ps.find? (fun p => p.bh == mh) with
+        | some p => Pre.box p.m.body
+        | none => Pre.claim mh
+      [⟨z, t, pre, sh⟩]
+    | none => []
+
+def insertSorted (s : String) : List String → List String
+  | [] => [s]
+  | x :: xs => if s < x then s :: x :: xs else if s = x then x :: xs else x :: insertSorted s xs
+
+def verifyReply (storeS : String) : String :=
+  match (storeS.splitOn "|").mapM parseManifest with
+  | none => "bad-request"
+  | some ps =>
+    match lastChild' ps with
+    | none => "no-active"
+    | some root =>
+      let o := verifyStore (decOf ps) (ps.map (·.m)) root.m
+      let fs := (o.log.map failStr).foldr insertSorted []
+      (if o.stop then "err " else "ok ") ++ (if fs.isEmpty then "-" else ",".intercalate fs)
+where
+  lastChild' : List PManifest → Option PManifest
+    | [] => none
+    | [p] => some p
+    | _ :: ps => lastChild' ps
 
 def handle (toks : List String) : String :=
   match toks with
   | "cover" :: rest =>
     let padsS := field rest "pads"
     let obsS := field rest "obs"
+    let headsS := field rest "heads"
+    let nilsS := field rest "nils"
     match fromHex? (field rest "store"),
         (splitList (if padsS == "-" then "" else padsS) ",").mapM parseRange2,
+        (splitList (if headsS == "-" then "" else headsS) ",").mapM (·.toNat?),
+        (splitList (if nilsS == "-" || nilsS == "" then "" else nilsS) ",").mapM (·.toNat?),
         (splitList (if obsS == "-" then "" else obsS) ",").mapM parseObs with
-    | some store, some pads, some obs => coverReply store pads obs
-    | _, _, _ => "bad-request"
+    | some store, some pads, some heads, some nils, some obs => coverReply store pads nils heads obs
+    | _, _, _, _, _ => "bad-request"
+  | "verify" :: rest => verifyReply (field rest "store")
   | "oracle" :: _ => "oracle-only"
   | _ => "bad-op"
 
